@@ -386,6 +386,7 @@ for n in (1, 3, 8, 24):
         attrs=['#[kani::unwind(10)]'], flags=['nolc'], cost=30, macro='p')
 add('k1_loops', 'drop_closure_unbounded', 'drop_closure_unbounded_h()', props=['C03', 'C05'], tier='q', cost=5, macro='p', attrs=['#[kani::unwind(4)]'])
 add('k1_loops', 'clone_fn_unbounded', 'clone_fn_unbounded_h()', props=['C08', 'C03', 'C05'], tier='q', cost=5, macro='p', attrs=['#[kani::unwind(4)]'])
+add('k1_loops', 'clone_from_samelayout_stack', 'clone_from_h::<TC>(mk_tc)', props=['C08', 'C04', 'C09'], tier='q', kind='bounded', bound='real Stack<16> vectors (capacity 2) of two 8-byte element types of equal layout, lengths 0..=2', attrs=['#[kani::unwind(6)]'], flags=['nolc'], cost=30, macro='p')
 add('k1_loops', 'clone_from_same_stack', 'clone_from_h::<TB>(mk_tb)', props=['C08', 'C11', 'C12'], tier='q', kind='bounded', bound='real Stack<16> vectors (capacity 2) of one 8-byte element type, lengths 0..=2', attrs=['#[kani::unwind(6)]'], flags=['nolc'], cost=30, macro='p')
 add('k1_loops', 'clone_from_stack', 'clone_from_h::<TA>(mk_ta)', props=['C08', 'C04', 'C09', 'C11', 'C12'], tier='q', kind='bounded', bound='real Stack<16> vectors (capacity 2) of two 8-byte element types, lengths 0..=2', attrs=['#[kani::unwind(6)]'], flags=['nolc'], cost=30, macro='p')
 add('k1_loops', 'nop_clone', 'nop_clone_h()', props=['C08'], tier='q', cost=2, macro='p')
